@@ -9,7 +9,7 @@ typedef struct { int preemptions, timeouts, spurious; } vs_bounds;
 typedef struct { long executions, transitions, points, max_points, switches, with_timeouts; int incomplete; } vs_stats;
 extern int vs_prefix[], vs_prefix_nen[], vs_prefix_len, vs_choice[], vs_nen[], vs_curen[], vs_npts;
 extern long vs_steps, vs_switches, vs_max_steps;
-extern int vs_allow_timeouts, vs_allow_spurious, vs_timeouts_fired;
+extern int vs_allow_timeouts, vs_allow_spurious, vs_timeouts_fired, vs_fail_create_at;
 extern long vs_max_exec; extern const char *vs_dump_path, *vs_resume_path; extern int vs_dumped;
 extern void (*vs_on_fatal)(const char *kind, const char *detail);
 void vs_begin(void);
